@@ -244,7 +244,9 @@ func genArgFault(r *Rng, d *DeclSpec, p *Plan, twinCalls []Call) (f ArgFault, ok
 			need = !c.SubOptional
 			cs = c.Commands
 		}
-		if need {
+		// under PassAfterNonOption an unknown word legitimately ends option
+		// parsing, so a required-option error may come first
+		if need && d.Options&optPassAfterNonOption == 0 {
 			f.Expect = "unknown command"
 		}
 		return f, true
